@@ -145,6 +145,10 @@ Pool0 == <<
   Any_("hist_parse_record", [NoArgs EXCEPT !.sub = "defrag+badhs"], EncRecordRaw(22, 771, <<14, 0, 0, 0>> \o CERT)),
   Any_("hist_parse_record", [NoArgs EXCEPT !.sub = "defrag"], EncRecordRaw(22, 771, CH)),
   Any_("hist_parse_record", [NoArgs EXCEPT !.sub = "badct"], EncRecordRaw(23, 771, <<1, 2, 3>>)),
+  Any_("hist_parse_record", [NoArgs EXCEPT !.sub = "nocopyfrag"], EncRecordRaw(22, 771, CH)),
+  Any_("hist_parse_record", [NoArgs EXCEPT !.sub = "nocopyfrag2"], EncRecordRaw(21, 771, <<1, 0, 2, 40>>)),
+  Any_("hist_parse_record", [NoArgs EXCEPT !.sub = "badlen"], EncRecordRaw(22, 771, <<14, 0, 0, 0>> \o CERT)),
+  Any_("hist_parse_record", [NoArgs EXCEPT !.sub = "badver"], EncRecordRaw(22, 771, CH)),
   Any_("hist_parse_record", [NoArgs EXCEPT !.sub = "reset"], EncRecordRaw(24, 771, <<1, 0, 1, 9>> \o Fill(2, 16)))
   >>
 ASSUME TLCSet(4, Pool0 \o TagPool)
